@@ -2,8 +2,9 @@
 (* Bounded instances of KnownHosts and the case generator for binding R (property C42).
    TLC evaluates every zero-arity constant definition visible from the root module at start-up, so
    this module holds the shared operators and the small instance W (+ round trip); the file menus of
-   the instances L and F live in KnownHosts_MCL / KnownHosts_MCF and the thorough-tier ones in
-   KnownHosts_MCBig. *)
+   the instances L and F live in KnownHosts_MCL / KnownHosts_MCF; KnownHosts_MCQ is the root module of
+   the quick tier (all three families in one TLC run, each family with its own query list) and
+   KnownHosts_MCBig the one of the thorough tier. *)
 EXTENDS KnownHosts, Json
 
 A == <<"a">>      B == <<"b">>      AB == <<"a", "b">>
@@ -46,12 +47,12 @@ HostSeq(n) == IF n = 0 THEN <<>> ELSE HostSeq(n - 1) \o StrsExact(HostAlphaSeq, 
 HostQueries(n) == LET hs == HostSeq(n) IN [k \in 1..Len(hs) |-> Q(TRUE, hs[k], P22, B, P22, Plain("k2"))]
 QueriesWG == HostQueries(3)
 \* checked once per pattern (in the state after New)
-WildAgreeN(n) == (phase = "ready" /\ file # <<>>) =>
+WildAgreeN(n) == (phase = "ready" /\ fam \in {"W", "WB"} /\ file # <<>>) =>
    \A s \in Strs(HostAlphabet, n) \cup Strs({"a", "*", "?"}, n - 1) :
        WildT(StarFix, file[1].pats[1].h, s) = Wild(file[1].pats[1].h, s)
 WildAgree == WildAgreeN(WStrLen)
 \* every string matches itself as a pattern; "*" matches everything; text round trip of patterns
-WildSelf == (phase = "ready" /\ file # <<>>) =>
+WildSelf == (phase = "ready" /\ fam \in {"W", "WB"} /\ file # <<>>) =>
    LET p == file[1].pats[1].h IN
    /\ Wild(p, p) /\ WildT(StarFix, p, p)
    /\ \A pt \in Ports, n \in BOOLEAN : ParsePattern(PatternText(Pat(n, p, pt))) = Pat(n, p, pt)
@@ -61,7 +62,7 @@ WildSelf == (phase = "ready" /\ file # <<>>) =>
 \* (evaluated on the empty file of instance W)
 RTAddrs == {[h |-> h, port |-> pt] : h \in Strs({"a", ".", "*", "?"}, 2) \ {<<>>}, pt \in Ports}
 Accepts(l, a) == DecideT(StarFix, SubjectFix, Parse(<<l>>), Q(TRUE, a.h, a.port, B, P2, Plain("k1"))).t = "ok"
-RoundTrip == (phase = "ready" /\ file = <<>>) =>
+RoundTrip == (phase = "ready" /\ fam = "W" /\ file = <<>>) =>
   /\ \A a \in RTAddrs :
        /\ LineMatchD(LineOf(<<a>>, "k1"), a.h, a.port) /\ Accepts(LineOf(<<a>>, "k1"), a)
        /\ LineMatchD(HashedLineOf(a, "k1"), a.h, a.port) /\ Accepts(HashedLineOf(a, "k1"), a)
@@ -85,8 +86,9 @@ Emit == phase = "ready" =>
       \* which pinned piece explains the difference
       Cause(i) == IF CmpT(DecideT(FALSE, TRUE, db, QS[i])) = O[i] THEN "star"
                   ELSE IF CmpT(DecideT(TRUE, FALSE, db, QS[i])) = O[i] THEN "subject" ELSE "both"
-  IN PrintT("TRACE " \o ToJson([f |-> file, d |-> D,
+  IN PrintT("TRACE " \o ToJson([fam |-> fam, f |-> file, d |-> D,
         o |-> {[i |-> i, r |-> O[i], c |-> Cause(i)] : i \in {j \in 1..NQ : O[j].t # D[j].t \/ O[j].w # D[j].w}}]))
-\* the query list, once per run
-ASSUME PrintT("TRACE " \o ToJson([queries |-> QuerySeq]))
+Cases(tag, files) == {[fam |-> tag, f |-> x] : x \in files}
+\* the query list of a family, printed once per run by the root module
+EmitQueries(tag, qs) == PrintT("TRACE " \o ToJson([fam |-> tag, queries |-> qs]))
 =============================================================================
